@@ -26,6 +26,11 @@ META = {
 
 
 def run(prog, report, tier):
+    from .. import quadtree as _qt
+    from .. import effects as _ef
+    _qt.check_diam(prog, report)
+    _ef.check_memo(prog, report, files={'src/initial_mesh.py'})
+    _ef.check_global_memos(prog, report, {'src/initial_mesh.py'})
     quadtree.check_scalar(prog, report, files=(quadtree.IM, ))
     quadtree.check_quad_children(prog, report)
     quadtree.check_quad_bisect(prog, report)
